@@ -9,7 +9,7 @@
    (any running transfer, any store, any callback log) unless stated otherwise. *)
 From Coq Require Import ZArith List Bool.
 From CV Require Import Base.Val Base.Bytes Base.Tys Gen.Tables Gen.SdoTables Model.Codec Model.RefClient
-  Model.SdoServer Proofs.SdoServer_proofs Gen.Src Proofs.Src_eq_sdo.
+  Model.SdoServer Proofs.SdoServer_proofs Gen.SrcC02 Proofs.Src_eq_sdo.
 Import ListNotations.
 Open Scope Z_scope.
 
@@ -109,7 +109,7 @@ Example C02_nv_one_response_per_request :
 Proof. repeat split; vm_compute; reflexivity. Qed.
 
 (* Tie to the source text: SdoServer.segmented_upload as translated from the CURRENT source by tools/py2coq.py
-   (Gen/Src.v, regenerated on every run) computes the command byte (toggle, unused-byte count, last-segment flag)
+   (Gen/SrcC02.v, regenerated on every run) computes the command byte (toggle, unused-byte count, last-segment flag)
    and the next toggle of the model's segmented_upload; a toggle mismatch is the abort 0x05030000 in both. *)
 Theorem C02_source_segmented_upload_is_model : forall st command buf, s_buf st = Some buf ->
   match src_server_segmented_upload command (s_toggle st) (zlen buf) with
